@@ -160,6 +160,27 @@ def run_case(desc):
     if not (np.array_equal(snap[0], at.get_positions()) and np.array_equal(snap[1], at.get_atomic_numbers()) and np.array_equal(snap[2], np.asarray(at.get_cell()))):
         out.fail("input-untouched", "get_dimensionality modified its input")
 
+    # ---- other entry points of the same function: clusters of the cell contents, and a precomputed distance matrix ------
+    ok, rc = call(mg.get_dimensionality, at.copy(), thr, radii=rad_for(), return_clusters=True)
+    if not ok:
+        out.fail("returns-normally", "return_clusters=True: %r" % rc, key="exc-clusters:" + exc_key(rc))
+    else:
+        d_rc, cl = rc
+        if d_rc != dm:
+            out.fail("return-clusters-same-dimensionality", "return_clusters=True gives %r, the plain call %r" % (d_rc, dm))
+        flat = sorted(int(i) for c in cl for i in c)
+        if flat != list(range(n)):
+            out.fail("clusters-partition", "returned clusters do not partition the %d atoms" % n)
+        elif len(cl) != ncomp:
+            out.fail("clusters-are-components", "%d clusters returned, the bonding graph of the cell contents has %d components" % (len(cl), ncomp))
+    if n_images(cell, pbc, (np.linalg.norm(cell, axis=1)[pbc].max() if pbc.any() else 0.0), n, None)[0] <= 5e3 and not shifted:
+        ok, dd = call(mg.get_distances, at.copy(), rad_for() if not isinstance(rarg, str) else rarg)
+        if ok:
+            ok, d_pre = call(mg.get_dimensionality, at.copy(), thr, dist_matrix_radii_mic_1x=np.array(dd.dist_matrix_radii_mic), radii=rad_for())
+            if not ok:
+                out.fail("returns-normally", "precomputed distance matrix: %r" % d_pre, key="exc-precomputed:" + exc_key(d_pre))
+            elif d_pre != dm:
+                out.fail("precomputed-matrix-same-dimensionality", "with the distance matrix of get_distances passed in: %r, plain call %r" % (d_pre, dm))
     # ---- metamorphic: one change of presentation, same answer ------------------------------------------
     tr = desc["transform"]
     kind = tr["kind"]
